@@ -2,6 +2,7 @@ import Proofs.RefineDone
 import Proofs.StatusModel
 import Proofs.SharedStorage
 import Proofs.SharedComplete
+import Proofs.StopFlag
 
 /-!
 # C14 — Timeouts cancel cooperatively and every job ends in a terminal status
@@ -484,5 +485,113 @@ def tabBad : TableObs := { nJobs := 2, rows := [(1, .done), (0, .done)] }
 example : checkShared { jobs := jobsOk, tables := [tabA, tabB] } = true := by decide +kernel
 example : checkShared { jobs := jobsOk, tables := [tabA, tabBad] } = false := by decide +kernel
 example : checkShared { jobs := jobsBack, tables := [tabA, tabBad] } = false := by decide +kernel
+
+end DH.Timeout
+
+/-! ### the `stopped` flag of `Search._search`: time budget, callbacks, `max_evals` (`Model/StopFlag.lean`)
+
+`searchF s c reps drainRep views` is the real `search()` on an evaluator created with `callbacks=[…]`: `views` holds, per
+iteration of the loop, what `_search` sees of each callback (`none`: no attribute `search_stopped`; `some b`: its
+value) — an arbitrary environment: logger / progress-bar callbacks, `SearchEarlyStopping` before and after it fires, a
+user's own callback.  The stop reason `.timeout` of `searchF` stands for "the flag was raised". -/
+
+namespace DH.Timeout
+
+/-- **C14 (the `stopped` flag is only ever raised).**  (a) The two tests at the end of an iteration never lower the
+flag: once true it stays true, an expired time budget raises it whatever the callbacks say, and so does a callback that
+asks for the stop.  (b) In every `search()` call, with any callbacks: every iteration starts with the flag down, leaves
+it at `before ∨ expired ∨ fired`, the next iteration reads exactly that value and exists only if it is `false` — after
+the first raise nothing is asked, submitted or gathered any more. -/
+theorem C14_stop_flag_monotone :
+    (∀ (e : Bool) (v : CbView), raiseFlag true e v = true) ∧
+    (∀ (st : Bool) (v : CbView), raiseFlag st true v = true) ∧
+    (∀ (st e : Bool) (v : CbView), fires v = true → raiseFlag st e v = true) ∧
+    (∀ (s : Ev) (c : Call) (reps : List (List Nat × List Nat)) (views : List CbView),
+      (∀ st ∈ searchFlags s c reps views,
+        st.before = false ∧ st.after = (st.before || st.expired || st.fired)) ∧
+      (∀ (i : Nat) (a b : FlagStep), (searchFlags s c reps views)[i]? = some a →
+        (searchFlags s c reps views)[i + 1]? = some b → a.after = false ∧ b.before = a.after)) := by
+  refine ⟨raiseFlag_of_stopped, raiseFlag_of_expired, fun st e v h => raiseFlag_of_fires st e h, ?_⟩
+  intro s c reps views
+  obtain ⟨h1, h2, _⟩ := flagsF_spec c.strict (targetF (prepF s c) c) reps (prepF s c) false (prepF s c).W views
+  exact ⟨h1, h2⟩
+
+/-- **C14 (an expired time budget stops the search whatever the callbacks say).**  If the gather of an iteration ends
+at or after the deadline, the loop returns right there — no further ask / submit / gather, the evaluator is left exactly
+as that gather left it — for every view of the callbacks (an early-stopping callback that has not fired included) and
+every later environment. -/
+theorem C14_expiry_stops_despite_callbacks (strict : Bool) (target : Int) (s : Ev) (nAsk : Nat)
+    (rep : List Nat × List Nat) (rest : List (List Nat × List Nat)) (views : List CbView)
+    (hc : target < 0 ∨ numEvals strict s < target)
+    (hsub : (submitCap (askStep s) nAsk).2 = false)
+    (hg : (gatherO (submitCap (askStep s) nAsk).1 false 1 rep.1 rep.2).2 = none)
+    (hexp : expired (gatherO (submitCap (askStep s) nAsk).1 false 1 rep.1 rep.2).1 = true) :
+    loopF strict target s false nAsk (rep :: rest) views =
+      ((gatherO (submitCap (askStep s) nAsk).1 false 1 rep.1 rep.2).1, .timeout) := by
+  rw [loopF]
+  simp only [hc, and_self, if_true, hsub, Bool.false_eq_true, if_false, hg, hexp]
+  rw [raiseFlag_of_expired, loopF_stopped]
+
+/-- **C14 (callbacks that do not ask for the stop change nothing).**  After any history of returned `search()` calls of
+one evaluator, a `search()` call during which no callback fires (logger, progress bar, early stopping that has not
+triggered) is the `search` of `C14_complete` / `C14_returns` / `C14_returns_steps`: it returns by budget, cap or timeout
+exactly as without callbacks. -/
+theorem C14_callbacks_silent (W : Nat) (specs : List Spec) (hist : List SCall)
+    (hh : ∀ st ∈ (runSearches (init W true specs) hist).2, SettledStop st)
+    (c : Call) (reps : List (List Nat)) (drainRep : List Nat) (views : List CbView)
+    (hv : ∀ v ∈ views, fires v = false) :
+    searchF (runSearches (init W true specs) hist).1 c (reps.map (fun r => (r, []))) (drainRep, []) views =
+      search (runSearches (init W true specs) hist).1 c reps drainRep := by
+  rw [searchF_silent _ _ _ _ _ hv]
+  exact C14_shared_single W specs hist hh c reps drainRep
+
+/-- **C14 (status only moves forward / completeness, with callbacks).**  Any number of evaluators with callbacks on one
+storage, any history of returned `search()` calls with any callback views (firing or not, at any iteration): every
+job's writes are an allowed forward sequence; and when a further `search()` returns (by budget, cap, time budget or a
+callback's request) nothing is running and its results hold every job ever submitted exactly once, DONE or CANCELLED. -/
+theorem C14_callbacks_complete (Ws : List Nat) (specs : List Spec) (hist : List WCallF)
+    (hh : ∀ st ∈ (wsearchesF (winit Ws true specs) hist).2, SettledStop st)
+    (k : Nat) (l : Local) (hk : (wsearchesF (winit Ws true specs) hist).1.evs[k]? = some l)
+    (c : Call) (reps : List (List Nat × List Nat)) (drainRep : List Nat × List Nat) (views : List CbView) :
+    let r := searchF (view (wsearchesF (winit Ws true specs) hist).1 l) c reps drainRep views
+    (∀ j ∈ r.1.jobs, Allowed j.log ∧ j.log.getLast? = some j.status) ∧
+    (SettledStop r.2 →
+      r.1.running = [] ∧ r.1.results.Nodup ∧ (∀ i : Nat, i < r.1.jobs.length ↔ i ∈ r.1.results) ∧
+      ∀ (i : Nat) (j : Job), r.1.jobs[i]? = some j →
+        (j.pc = .gathered ∨ j.pc = .closedOut) ∧ (j.status = .done ∨ j.status = .cancelled)) := by
+  intro r
+  refine ⟨?_, ?_⟩
+  · intro j hj
+    have hi := wsearchesF_allInv hist _ (allInv_winit Ws true specs)
+    exact allowed_of_inv (pres_searchF pres_allInv _ c reps drainRep views hi j hj)
+  · intro hs
+    have hq := wsearchesF_quiet hist _ (quiet_winit Ws specs) hh
+    exact (quiet_searchF hq hk c reps drainRep views hs).2
+
+/-! non-vacuity: one worker, `search(timeout=2)`, evaluations of one tick, an early-stopping callback that never fires
+(`some false` at every iteration): the second gather ends at the deadline, the flag is raised by the time budget and the
+loop returns with two jobs — the view `some false` does not take the expiry back -/
+def specsF : List Spec := [⟨1, 1, false, 1⟩, ⟨1, 1, false, 2⟩, ⟨1, 1, false, 3⟩, ⟨1, 1, false, 4⟩]
+def repsF : List (List Nat × List Nat) := [([0], []), ([1], []), ([2], []), ([3], [])]
+
+example : (searchF (init 1 true specsF) { timeout := some 2 } repsF ([], []) [[some false], [some false], [some false]]).2
+    = .timeout := by decide +kernel
+example : (searchF (init 1 true specsF) { timeout := some 2 } repsF ([], []) [[some false], [some false], [some false]]).1.results
+    = [0, 1] := by decide +kernel
+example : searchFlags (init 1 true specsF) { timeout := some 2 } repsF [[some false], [some false], [some false]] =
+    [⟨false, false, false, false⟩, ⟨false, true, false, true⟩] := by decide +kernel
+/-- a callback without the attribute and one that fires at the first iteration, long before the deadline: one job, DONE -/
+example : (searchF (init 1 true specsF) { timeout := some 9 } repsF ([], []) [[none, some true]]).1.jobs.map (·.status)
+    = [.done] := by decide +kernel
+example : searchFlags (init 1 true specsF) { timeout := some 9 } repsF [[none, some true]] =
+    [⟨false, false, true, true⟩] := by decide +kernel
+/-- hypotheses of `C14_expiry_stops_despite_callbacks` at the second iteration of the first scenario -/
+example :
+    let s := (gatherO (submitCap (askStep (prepF (init 1 true specsF) { timeout := some 2 })) 1).1 false 1 [0] []).1
+    numEvals false s < 9 ∧ (submitCap (askStep s) 1).2 = false ∧
+    (gatherO (submitCap (askStep s) 1).1 false 1 [1] []).2 = none ∧
+    expired (gatherO (submitCap (askStep s) 1).1 false 1 [1] []).1 = true := by decide +kernel
+/-- what the flag logic must not be: *assigning* the callback's value would lower a raised flag -/
+example : raiseFlag true false [some false] = true ∧ raiseFlag false true [some false] = true := by decide
 
 end DH.Timeout
